@@ -647,11 +647,15 @@ Section WithEnv.
         if (da_num a =? 0) && negb (sh_entsize s =? 0) && (needed <=? sh_entsize s) then
           let n := sh_size s / sh_entsize s in
           '(el0, p, s0) <- sec_data el (da_sec a) ;;
+          match p with
+          | None => Ok (el0, a, da_num a)      (* data not available: no entries (C17 fix) *)
+          | Some _ =>
           let fuel := match p with Some b => 0 :: b | None => [0; 0] end in
           i <- dyn_count_core fuel (acls el0) (el_enc el0) s0 p 0 n ;;
           el1 <- dyn_touch fuel el0 (da_sec a) n 0 i ;;
           let num := N.min n (i + 1) in
           Ok (el1, mkDynAcc (da_sec a) num, num)
+          end
         else Ok (el, a, da_num a)
     end.
 
